@@ -51,7 +51,7 @@ needs them.  The laws:
 
 Case ids end in the *input class* of the refuting value: the innermost
 constraint of the rejecting spec that says no (`diag`: int-max, list-min-size,
-tuple-max-size, dict-key, frozen, none:<Class>, callable-args, enum-...,
+tuple-max-size, dict-key, frozen, none-<Class>, callable-args, enum-...,
 union-shadowed, union-unused-<value>-for-<Candidate>), so
 that one defect gives one id wherever it is nested.
 
@@ -62,7 +62,6 @@ apply/default checks and as *bases* of extensions of their own class only:
 what a user function accepts is not something is_compatible could know.
 """
 import copy
-import itertools
 import re
 
 import pyglove as pg
@@ -1325,7 +1324,7 @@ def drv_apply(tier, seed):
       got = U.accepts(i, j)
       if got != want:
         tag = diag(a, ev(x)) if want is False else 'rejects-' + vkind(ev(x))
-        rec.case(f'accept.model/{k}:{tag}', (e, x), False,
+        rec.case(f'accept.model/{k}-{tag}', (e, x), False,
                  f'{e} {"accepts" if got else "rejects"} {x}; expected the opposite',
                  fit(pre(e, x) + f'assert acc({e}, {x}) == {want}\n', (e, x)))
       else:
@@ -1482,9 +1481,9 @@ def compat_tag(a, b, sb, v):
         pass
   tag = diag(a, v)
   if tag == 'none':
-    tag = 'none:' + ('Callable' if a['k'] == 'Functor' else a['k'])
+    tag = 'none-' + ('Callable' if a['k'] == 'Functor' else a['k'])
   if a['k'] in ('Callable', 'Functor') and b['k'] == 'Object' and tag != 'frozen':
-    tag += '<-Object'       # the claim comes from Callable.is_compatible(Object).
+    tag += '-from-Object'       # the claim comes from Callable.is_compatible(Object).
   return tag
 
 
@@ -1581,12 +1580,12 @@ def project(v, c, b):
 
 def origin(b, c):
   """Suffix of a case id: the claim comes from Object.extend(Callable)."""
-  return '<-Object' if b['k'] in ('Callable', 'Functor') and c['k'] == 'Object' else ''
+  return '-from-Object' if b['k'] in ('Callable', 'Functor') and c['k'] == 'Object' else ''
 
 
 def none_kind(tag, a):
   if tag == 'none':
-    return 'none:' + ('Callable' if a['k'] == 'Functor' else a['k'])
+    return 'none-' + ('Callable' if a['k'] == 'Functor' else a['k'])
   return tag
 
 
@@ -1946,15 +1945,17 @@ def drv_schema(tier, seed):
         # schema on the fields they share.
         badd = set()
         for x in xs:
-          dv = "{'x': " + x + '}'
-          v = ev(dv)
+          dv = "{'x': " + x + (", 'y': 0" if layout == 1 else '') + '}'
+          dvc = dv[:-1] + ", 'z': 's'}" if layout == 2 else dv
+          v = ev(dvc)
           if has_missing(v):
             continue
           f0 = fp(v)
           try:
             if fp(cs.apply(v)) != f0:
               continue
-            pv = {'x': project(ev(x), c, b)}
+            pv = ev(dv)
+            pv['x'] = project(pv['x'], c, b)
           except Exception:  # pylint: disable=broad-except
             continue
           try:
@@ -1964,10 +1965,10 @@ def drv_schema(tier, seed):
             if tag not in badd:
               badd.add(tag)
               rec.case('schema.extend.dict-narrower/' + tag, key + (x,), False,
-                       f'{mk_c}.extend({mk_b}) accepts {dv}; the base schema does not: '
-                       f'{type(ex).__name__}: {ex}',
+                       f'{mk_c}.extend({mk_b}) accepts {dvc}; the base schema does not '
+                       f'accept {dv}: {type(ex).__name__}: {ex}',
                        fit(pre(ec, eb, x) + f'bs = {mk_b}\ncs = {mk_c}.extend({mk_b})\n'
-                           f'cs.apply({dv})\nbs.apply({dv})\n', key))
+                           f'cs.apply({dvc})\nbs.apply({dv})\n', key))
         if not badd:
           rec.case('schema.extend.dict-narrower', key, True)
       # Schema.is_compatible soundness.
@@ -2005,8 +2006,7 @@ def drv_schema(tier, seed):
         if not badc:
           rec.case('schema.compat.sound', (eb, ec, layout), True)
       # class inheritance.
-      if tier != 'quick' or (ci * 7 + bi) % 2 == 0:
-        n_cls += _check_classes(rec, c, b, ec, eb, layout, xs)
+      n_cls += _check_classes(rec, c, b, ec, eb, layout, xs)
   rec.scope = (f'{len(fs)} field specs; {n_ext} successful Schema.extend of '
                f'{len(fs)}^2{" same-family" if tier == "quick" else ""} pairs in 3 layouts '
                f'(same keys / base-only field / child-only field); {n_comp} schema pairs declared '
